@@ -86,7 +86,7 @@ def run_cases(prop, cases):
     if prop.parallel and len(cases) > 8:
         import multiprocessing as mp
         ctx = mp.get_context('fork')
-        with ctx.Pool(min(14, os.cpu_count() or 4), initializer=_pool_init,
+        with ctx.Pool(min(coqrun.njobs(14), os.cpu_count() or 4), initializer=_pool_init,
                       initargs=(type(prop).__module__, type(prop).__name__)) as pool:
             return pool.map(_pool_run, cases, chunksize=max(1, len(cases) // 64))
     return [_impl_and_oracle((prop, c)) for c in cases]
